@@ -10,6 +10,19 @@ mod suites;
 use std::collections::BTreeMap;
 use std::fs::File;
 use std::io::{BufWriter, Write};
+use std::sync::atomic::{AtomicBool, AtomicU64, Ordering};
+use std::sync::Mutex;
+
+/// progress heartbeat per shard (cases taken + answers emitted), read by the hang watchdog
+const MAX_SHARDS: usize = 64;
+#[allow(clippy::declare_interior_mutable_const)]
+const ZERO: AtomicU64 = AtomicU64::new(0);
+#[allow(clippy::declare_interior_mutable_const)]
+const FALSE: AtomicBool = AtomicBool::new(false);
+static PROGRESS: [AtomicU64; MAX_SHARDS] = [ZERO; MAX_SHARDS];
+static CASE_IDX: [AtomicU64; MAX_SHARDS] = [ZERO; MAX_SHARDS];
+static SHARD_DONE: [AtomicBool; MAX_SHARDS] = [FALSE; MAX_SHARDS];
+static LAST_REQ: Mutex<Vec<String>> = Mutex::new(Vec::new());
 
 #[derive(Clone, Copy, PartialEq, Eq, Debug)]
 pub enum Tier {
@@ -31,6 +44,8 @@ pub struct Ctx {
     pub shard: usize,
     pub nshards: usize,
     idx: u64,
+    /// replay of a single case (hang replay): only the case with this index is run
+    only: Option<u64>,
     req: BufWriter<File>,
     imp: BufWriter<File>,
     pub violations: Vec<Violation>,
@@ -43,7 +58,14 @@ pub struct Ctx {
 impl Ctx {
     /// true if the next case belongs to this shard
     pub fn take(&mut self) -> bool {
-        let mine = (self.idx % self.nshards as u64) as usize == self.shard;
+        let mut mine = (self.idx % self.nshards as u64) as usize == self.shard;
+        if let Some(only) = self.only {
+            mine = mine && self.idx == only;
+        }
+        if mine {
+            CASE_IDX[self.shard % MAX_SHARDS].store(self.idx, Ordering::Relaxed);
+            PROGRESS[self.shard % MAX_SHARDS].fetch_add(1, Ordering::Relaxed);
+        }
         self.idx += 1;
         mine
     }
@@ -54,6 +76,20 @@ impl Ctx {
         writeln!(self.req, "{}", req).unwrap();
         writeln!(self.imp, "{}", imp).unwrap();
         self.emitted += 1;
+        PROGRESS[self.shard % MAX_SHARDS].fetch_add(1, Ordering::Relaxed);
+        if self.emitted % 64 == 0 || self.only.is_some() {
+            if let Ok(mut l) = LAST_REQ.lock() {
+                if l.len() <= self.shard {
+                    l.resize(self.shard + 1, String::new());
+                }
+                l[self.shard].clear();
+                let mut cut = req.len().min(400);
+                while !req.is_char_boundary(cut) {
+                    cut -= 1;
+                }
+                l[self.shard].push_str(&req[..cut]);
+            }
+        }
         if self.samples.len() < 3 && self.emitted % 977 == 1 {
             self.samples.push(format!("{}  =>  {}", req, imp));
         }
@@ -120,6 +156,7 @@ pub fn new_ctx(path: &str) -> Ctx {
         shard: 0,
         nshards: 1,
         idx: 0,
+        only: None,
         req: BufWriter::new(File::create(path).unwrap()),
         imp: BufWriter::new(File::create(path).unwrap()),
         violations: vec![],
@@ -130,7 +167,7 @@ pub fn new_ctx(path: &str) -> Ctx {
     }
 }
 
-fn run_shard(suite: &str, tier: Tier, seed: u64, shard: usize, nshards: usize, out: &str) {
+fn run_shard(suite: &str, tier: Tier, seed: u64, shard: usize, nshards: usize, out: &str, only: Option<u64>) {
     let req = BufWriter::new(File::create(format!("{}/{}.{}.req", out, suite, shard)).unwrap());
     let imp = BufWriter::new(File::create(format!("{}/{}.{}.impl", out, suite, shard)).unwrap());
     let mut ctx = Ctx {
@@ -139,6 +176,7 @@ fn run_shard(suite: &str, tier: Tier, seed: u64, shard: usize, nshards: usize, o
         shard,
         nshards,
         idx: 0,
+        only,
         req,
         imp,
         violations: vec![],
@@ -148,6 +186,7 @@ fn run_shard(suite: &str, tier: Tier, seed: u64, shard: usize, nshards: usize, o
         nontrivial: Default::default(),
     };
     suites::run(suite, &mut ctx);
+    SHARD_DONE[shard % MAX_SHARDS].store(true, Ordering::Relaxed);
     ctx.req.flush().unwrap();
     ctx.imp.flush().unwrap();
     let mut m = File::create(format!("{}/{}.{}.meta.json", out, suite, shard)).unwrap();
@@ -194,23 +233,83 @@ fn main() {
         suites::replay(&args[2]);
         return;
     }
-    if args.len() < 6 {
+    if args.len() < 6 || (args[1] == "hangcase" && args.len() < 9) {
         eprintln!("usage: harness <suite> <quick|thorough> <seed> <nshards> <outdir> | harness replay <request line>");
         std::process::exit(2);
     }
-    let suite = args[1].clone();
-    let tier = if args[2] == "thorough" { Tier::Thorough } else { Tier::Quick };
-    let seed: u64 = args[3].parse().unwrap_or(0);
-    let nshards: usize = args[4].parse().unwrap_or(1);
-    let out = args[5].clone();
+    // `harness hangcase <suite> <tier> <seed> <nshards> <outdir> <shard> <case index>`: run exactly one case
+    let (only, base) = if args[1] == "hangcase" && args.len() >= 9 {
+        (Some((args[7].parse::<usize>().unwrap_or(0), args[8].parse::<u64>().unwrap_or(0))), 2)
+    } else {
+        (None, 1)
+    };
+    let suite = args[base].clone();
+    let tier = if args[base + 1] == "thorough" { Tier::Thorough } else { Tier::Quick };
+    let seed: u64 = args[base + 2].parse().unwrap_or(0);
+    let nshards: usize = args[base + 3].parse().unwrap_or(1).min(MAX_SHARDS);
+    let out = args[base + 4].clone();
     std::fs::create_dir_all(&out).unwrap();
+    // hang watchdog: a shard that neither takes a case nor emits an answer for HARNESS_HANG_SECS seconds
+    // is reported (suite, shard, case index, last request written) and the process exits with code 4
+    let hang_secs: u64 = std::env::var("HARNESS_HANG_SECS").ok().and_then(|s| s.parse().ok()).unwrap_or(match tier {
+        Tier::Quick => 120,
+        Tier::Thorough => 600,
+    });
+    {
+        let (suite, out) = (suite.clone(), out.clone());
+        std::thread::spawn(move || {
+            let mut last = vec![(0u64, std::time::Instant::now()); MAX_SHARDS];
+            loop {
+                std::thread::sleep(std::time::Duration::from_millis(500));
+                for sh in 0..nshards {
+                    if let Some((s, _)) = only {
+                        if s != sh {
+                            continue;
+                        }
+                    }
+                    if SHARD_DONE[sh].load(Ordering::Relaxed) {
+                        continue;
+                    }
+                    let p = PROGRESS[sh].load(Ordering::Relaxed);
+                    if p != last[sh].0 {
+                        last[sh] = (p, std::time::Instant::now());
+                    } else if last[sh].1.elapsed().as_secs() >= hang_secs {
+                        let lr = LAST_REQ.lock().map(|l| l.get(sh).cloned().unwrap_or_default()).unwrap_or_default();
+                        let msg = format!(
+                            "{{\"suite\":{},\"shard\":{},\"nshards\":{},\"seed\":{},\"tier\":{},\"case_index\":{},\"stalled_secs\":{},\"last_request_written_by_shard\":{}}}",
+                            json_str(&suite),
+                            sh,
+                            nshards,
+                            seed,
+                            json_str(if tier == Tier::Thorough { "thorough" } else { "quick" }),
+                            CASE_IDX[sh].load(Ordering::Relaxed),
+                            hang_secs,
+                            json_str(&lr)
+                        );
+                        let _ = std::fs::write(format!("{}/{}.hang.json", out, suite), &msg);
+                        eprintln!("harness: HANG {}", msg);
+                        std::process::exit(4);
+                    }
+                }
+            }
+        });
+    }
     let mut handles = vec![];
     for shard in 0..nshards {
+        let one = match only {
+            Some((s, i)) => {
+                if s != shard {
+                    continue;
+                }
+                Some(i)
+            }
+            None => None,
+        };
         let (suite, out) = (suite.clone(), out.clone());
         handles.push(
             std::thread::Builder::new()
                 .stack_size(256 << 20)
-                .spawn(move || run_shard(&suite, tier, seed, shard, nshards, &out))
+                .spawn(move || run_shard(&suite, tier, seed, shard, nshards, &out, one))
                 .unwrap(),
         );
     }
@@ -223,5 +322,9 @@ fn main() {
     if bad {
         eprintln!("harness: a shard thread died");
         std::process::exit(3);
+    }
+    if only.is_some() {
+        let lr = LAST_REQ.lock().map(|l| l.iter().find(|s| !s.is_empty()).cloned().unwrap_or_default()).unwrap_or_default();
+        println!("case returned; last request written: {}", lr);
     }
 }
